@@ -83,6 +83,18 @@ def eq_key(f: FuncInfo):
             if (isinstance(l, ast.Attribute) and isinstance(r, ast.Attribute) and isinstance(l.value, ast.Name) and isinstance(r.value, ast.Name)
                     and {l.value.id, r.value.id} == {selfn, othn} and l.attr == r.attr):
                 attrs.add(l.attr)
+            else:
+                # the same attribute path on both sides (`self.function.name == other.function.name`): the root attribute is
+                # compared through that path
+                def chain(e):
+                    names = []
+                    while isinstance(e, ast.Attribute):
+                        names.append(e.attr)
+                        e = e.value
+                    return (e.id, tuple(reversed(names))) if isinstance(e, ast.Name) and names else None
+                cl, cr = chain(l), chain(r)
+                if cl and cr and {cl[0], cr[0]} == {selfn, othn} and cl[1] == cr[1] and len(cl[1]) > 1:
+                    attrs.add(cl[1][0])
     rets = [n.value for n in ast.walk(f.node) if isinstance(n, ast.Return) and n.value is not None]
 
     local = {}
